@@ -23,8 +23,9 @@ def val(stream, step):
     return 1000.0 * (stream + 1) + step
 
 
-async def scenario(starts, mode):
-    """starts: first step of each of the three streams; mode: how the samples are delivered."""
+async def scenario(starts, mode, missing=frozenset(), zeros=False):
+    """starts: first step of each of the three streams; mode: how the samples are delivered; missing: (stream, step)
+    pairs whose sample carries None; zeros: the streams are configured nones_are_zeros."""
     from frequenz.channels import Broadcast
     from frequenz.quantities import Quantity
     from frequenz.sdk.timeseries import Sample
@@ -32,7 +33,7 @@ async def scenario(starts, mode):
     chans = [Broadcast(name=f"in{i}") for i in range(3)]
     b = FormulaBuilder("explore", Quantity)
     for i, ch in enumerate(chans):
-        b.push_metric(f"m{i}", ch.new_receiver(limit=50), nones_are_zeros=False)
+        b.push_metric(f"m{i}", ch.new_receiver(limit=50), nones_are_zeros=zeros)
         if i:
             b.push_oper("+")
     eng = b.build()
@@ -43,7 +44,7 @@ async def scenario(starts, mode):
         await asyncio.sleep(0)
 
     async def feed(i, step):
-        await senders[i].send(Sample(T0 + timedelta(seconds=step), Quantity(val(i, step))))
+        await senders[i].send(Sample(T0 + timedelta(seconds=step), None if (i, step) in missing else Quantity(val(i, step))))
 
     if mode in ("prebuffered", "late_consumer"):
         for i in range(3):
@@ -73,11 +74,12 @@ async def scenario(starts, mode):
         step = int((s.timestamp - T0).total_seconds())
         if step != first + k:
             return f"emitted timestamps are steps {[int((x.timestamp - T0).total_seconds()) for x in got]}, demanded {list(range(first, N_STEPS))}"
-        want = sum(val(i, step) for i in range(3))
-        if s.value is None or abs(s.value.base_value - want) > 1e-6:
-            parts = None if s.value is None else s.value.base_value
-            return (f"sample stamped step {step} has value {parts}; the inputs stamped step {step} give {want} "
-                    f"(each input = 1000*(stream+1) + step)")
+        gone = [i for i in range(3) if (i, step) in missing]
+        want = None if (gone and not zeros) else sum(val(i, step) for i in range(3) if i not in gone)
+        have = None if s.value is None else s.value.base_value
+        if (want is None) != (have is None) or (want is not None and abs(have - want) > 1e-6):
+            return (f"sample stamped step {step} has value {have}; the inputs stamped step {step} give {want} "
+                    f"(each input = 1000*(stream+1) + step; missing at this step: streams {gone}; nones_are_zeros={zeros})")
     return None
 
 
@@ -134,6 +136,58 @@ async def scenario_3phase(lags, max_size):
     return None
 
 
+async def scenario_composed(lags):
+    """A higher-order formula (a + b) + c over three real single-metric engines built through the operator API; all
+    start on the same timestamp, engine i's input is DELIVERED lags[i] steps behind the others (far inside every
+    buffer's nominal capacity of 50).  Every output stamped T must be the sum of the three inputs stamped T, none skipped."""
+    from frequenz.channels import Broadcast
+    from frequenz.quantities import Quantity
+    from frequenz.sdk.timeseries import Sample
+    from frequenz.sdk.timeseries.formula_engine._formula_engine import FormulaBuilder
+    chans = [Broadcast(name=f"ho{i}") for i in range(3)]
+    engines = []
+    for i, ch in enumerate(chans):
+        b = FormulaBuilder(f"leaf{i}", Quantity)
+        b.push_metric(f"m{i}", ch.new_receiver(limit=50), nones_are_zeros=False)
+        engines.append(b.build())
+    eng = ((engines[0] + engines[1]) + engines[2]).build("composed")
+    out = eng.new_receiver()
+    senders = [ch.new_sender() for ch in chans]
+    got = []
+
+    async def consume():
+        async for s in out:
+            got.append(s)
+
+    consumer = asyncio.create_task(consume())
+    for _ in range(5):
+        await asyncio.sleep(0)
+    n = 6
+    for tick in range(n + max(lags)):
+        for i in range(3):
+            step = tick - lags[i]
+            if 0 <= step < n:
+                await senders[i].send(Sample(T0 + timedelta(seconds=step), Quantity(val(i, step))))
+                for _ in range(12):
+                    await asyncio.sleep(0)
+    for _ in range(40):
+        await asyncio.sleep(0)
+    consumer.cancel()
+    await eng._stop()  # pylint: disable=protected-access
+    for e in engines:
+        await e._stop()  # pylint: disable=protected-access
+    stamps = [int((s.timestamp - T0).total_seconds()) for s in got]
+    if stamps != list(range(n)):
+        return f"composed formula emitted samples stamped steps {stamps}, demanded {list(range(n))} (none skipped, in order)"
+    for s, step in zip(got, stamps):
+        want = sum(val(i, step) for i in range(3))
+        have = None if s.value is None else s.value.base_value
+        if have is None or abs(have - want) > 1e-6:
+            return (f"composed sample stamped step {step} has value {have}; the inputs stamped step {step} give {want} "
+                    f"(each input = 1000*(engine+1) + step)")
+    return None
+
+
 def run(req):
     logging.disable(logging.CRITICAL)
     t0 = time.time()
@@ -150,6 +204,21 @@ def run(req):
         if f:
             failure = (f, {"first_steps": list(starts), "delivery": mode})
             break
+    # missing values in time: the first or the second sample of one stream carries None, streams start at different steps
+    for starts in itertools.product(range(3), repeat=3):
+        for mode, zeros, (which, k) in itertools.product(("prebuffered", "interleaved"), (False, True),
+                                                         itertools.product(range(3), (0, 1))):
+            if failure:
+                break
+            missing = frozenset({(which, starts[which] + k)})
+            evaluations += 1
+            try:
+                f = asyncio.run(scenario(starts, mode, missing, zeros))
+            except Exception as e:  # pylint: disable=broad-except
+                f = f"scenario raised {type(e).__name__}: {e}"
+            if f:
+                failure = (f, {"first_steps": list(starts), "delivery": mode, "missing (stream, step)": sorted(missing),
+                               "nones_are_zeros": zeros})
     for lags, max_size in [(l, m) for l in itertools.product((0, 1, 4), repeat=3) for m in (1, 2, 50)]:
         if failure:
             break
@@ -160,13 +229,26 @@ def run(req):
             f = f"3-phase scenario raised {type(e).__name__}: {e}"
         if f:
             failure = (f, {"three_phase_delivery_lags": list(lags), "consumer_max_size": max_size})
+    for lags in itertools.product((0, 1, 4), repeat=3):
+        if failure:
+            break
+        evaluations += 1
+        try:
+            f = asyncio.run(scenario_composed(lags))
+        except Exception as e:  # pylint: disable=broad-except
+            f = f"composed scenario raised {type(e).__name__}: {e}"
+        if f:
+            failure = (f, {"composed_formula": "(a + b) + c", "delivery_lags": list(lags)})
     logging.disable(logging.NOTSET)
     out = {"status": "failed" if failure else "ok", "evaluations": evaluations, "distinct": evaluations, "known": {},
            "samples": samples, "wall_s": round(time.time() - t0, 1), "exhaustive": failure is None,
            "rule": "formula m0 + m1 + m2 on three streams; all 64 combinations of first steps 0..3 x 4 delivery modes "
                    "(pre-buffered, interleaved with loop iterations, burst per step, consumer subscribing after the data); "
-                   "8 steps per stream; plus the 3-phase engine over three single-metric engines with a common first "
-                   "timestamp: 27 delivery lags (0/1/4 steps per phase) x consumer buffer sizes 1/2/50, 6 steps; all cases distinct"}
+                   "8 steps per stream; 27 first-step combinations x 2 delivery modes x nones_are_zeros on/off x one None sample "
+                   "(first or second sample of one stream): the output is None exactly when an input of ITS timestamp is "
+                   "missing (else the missing input counts 0); plus the 3-phase engine over three single-metric engines with a common first "
+                   "timestamp: 27 delivery lags (0/1/4 steps per phase) x consumer buffer sizes 1/2/50, 6 steps; plus the composed formula (a + b) + c built with the operator "
+                   "API over three single-metric engines, 27 delivery lags; all cases distinct"}
     if failure:
         out["failure"] = {"clause": "every sample is computed from inputs of its own timestamp; timestamps consecutive", "detail": failure[0]}
         out["inputs"] = failure[1]
